@@ -684,8 +684,17 @@ var mutScalars = []func(r *rand.Rand) *valgen.Node{
 
 // mutMembers: a family of containers of one kind over a few keys and items, one container of
 // another kind, nested containers, and two pairs of equal scalars / arrays / summaries.
-func mutMembers(r *rand.Rand) ([]*valgen.Node, *menv) {
+// nothing: the leaves are null, another nothing-like value (zero, empty, ...) and two others, so that the mutators
+// put, overwrite and clear entries that hold "nothing" beside containers in which those entries are absent.
+func mutMembers(r *rand.Rand, nothing bool) ([]*valgen.Node, *menv) {
 	leaves := leafPool(r)
+	if nothing {
+		ns := nothings()
+		leaves = []*valgen.Node{ns[0], absentX[r.Intn(len(absentX))], ns[1+r.Intn(len(ns)-1)], absentX[r.Intn(len(absentX))]}
+		if r.Intn(2) == 0 {
+			leaves[0], leaves[1] = leaves[1], leaves[0]
+		}
+	}
 	x, y, z := leaves[0], leaves[1], leaves[2]
 	ki := r.Perm(len(famKeys))[:5]
 	e := &menv{leaves: leaves}
